@@ -835,6 +835,11 @@ func (ex *Exec) call(fn *ssa.Function, args []Value, env []Value) Value {
 	if h != nil {
 		return h(ex, fn, args)
 	}
+	return ex.callBody(fn, args, env)
+}
+
+// callBody interprets fn from its SSA (no intrinsic dispatch).
+func (ex *Exec) callBody(fn *ssa.Function, args []Value, env []Value) Value {
 	if len(fn.Blocks) == 0 {
 		if ex.initing {
 			return ex.opaqueResult(fn)
